@@ -1,5 +1,6 @@
 """C10 - randomised predictors sample from the probability mass function they report."""
 import itertools
+import math
 import random
 
 import numpy as np
@@ -106,6 +107,10 @@ def jobs(tier, seed):
         for ignore in (False, True):
             js.append({"id": f"thr-{''.join(op).replace('>', 'g').replace('<', 'l')}-{'ign' if ignore else 'noign'}", "kind": "thr", "ops": list(op), "ignore": ignore,
                        "rows": 3 if tier == "quick" else 4})
+            # the last row's base score is not finite (a log-odds / decision_function value of +-inf): still a valid distribution, still a function of
+            # (score, group); thresholds are +-inf themselves in fitted rules, input validation admits such scores
+            js.append({"id": f"thr-{''.join(op).replace('>', 'g').replace('<', 'l')}-{'ign' if ignore else 'noign'}-inf", "kind": "thr", "ops": list(op),
+                       "ignore": ignore, "rows": 3, "inf": 1 if (oi + ignore) % 2 else -1})
     js.append({"id": "seeds", "kind": "seeds", "nseeds": 3 if tier == "quick" else 30, "seed": seed})
     return js
 
@@ -273,6 +278,8 @@ def _thr(acc, job, deadline):
         mk = lambda name, lo, hi: real(name, lo, hi)
         d = _thr_state(job, mk)
         s = [real(f"s{i}", 0, 1) for i in range(rows)]
+        if job.get("inf"):
+            s[-1] = np.float64(math.inf * job["inf"])
         it = InterpolatedThresholder(tc.Scorer(s), d, prefit=True, predict_method="predict_proba").fit(None, None)
         X = np.arange(rows).reshape(-1, 1)
         try:
@@ -290,6 +297,9 @@ def _thr(acc, job, deadline):
         acc.reach(ctx)
         items = []
         for i in range(rows):
+            if core.is_nan(pm[i, 0]) or core.is_nan(pm[i, 1]):
+                items.append(("pmf_valid_distribution", z3.BoolVal(False), "thr:valid:nonfinite_score" if job.get("inf") and i == rows - 1 else "thr:valid"))
+                continue
             items.append(("pmf_valid_distribution", z3.And(term(pm[i, 0]) + term(pm[i, 1]) == 1, term(pm[i, 1]) >= 0, term(pm[i, 1]) <= 1), "thr:valid"))
             items.append(("label_is_one_iff_u_le_p", (z3.Real(f"u{i}") <= term(pm[i, 1])) == z3.BoolVal(int(lab[i]) == 1), "thr:sampling"))
             items.append(("label_in_01", z3.BoolVal(int(lab[i]) in (0, 1)), "thr:labels"))
@@ -429,12 +439,14 @@ def replay(cex):
     sf = (["ga", "ga", "gb", "gb"])[:rows] if rows == 4 else ["ga", "ga", "gb"]
     d = _thr_state(job, lambda name, lo, hi: f(name))
     s = [f(f"s{i}") for i in range(rows)]
+    if job.get("inf"):
+        s[-1] = math.inf * job["inf"]
     it = InterpolatedThresholder(tc.Scorer(s), d, prefit=True, predict_method="predict_proba").fit(None, None)
     X = np.arange(rows).reshape(-1, 1)
     pm = np.asarray(it._pmf_predict(X, sensitive_features=sf), dtype=float)
     bad = []
     for i in range(rows):
-        if not (-1e-12 <= pm[i, 1] <= 1 + 1e-12) or abs(pm[i, 0] + pm[i, 1] - 1) > 1e-9:
+        if math.isnan(pm[i, 1]) or not (-1e-12 <= pm[i, 1] <= 1 + 1e-12) or abs(pm[i, 0] + pm[i, 1] - 1) > 1e-9:
             bad.append(f"row {i}: invalid distribution {pm[i].tolist()}")
     if s[0] == s[1] and abs(pm[0, 1] - pm[1, 1]) > 1e-12:
         bad.append("equal score and group, different probability")
